@@ -17,6 +17,10 @@ type WorkerOut struct {
 	Prop       string             `json:"property"`
 	Build      string             `json:"build"`
 	From, To   uint64
+	// Done is one past the last run index executed: a process stops at its
+	// first violation, because a violation may have left package state
+	// corrupted for the runs that would follow in the same process.
+	Done       uint64             `json:"done"`
 	Stats      *hist.Stats        `json:"stats"`
 	Hashes     []string           `json:"hashes"`     // value hash per run, in run order
 	RawHashes  []string           `json:"raw_hashes"` // raw hash per run
@@ -106,20 +110,26 @@ func cmdHist(args []string) {
 	}
 	env := &hist.Env{Known: loadKnown(*known), Build: buildName(), PkgSnap: pkgSnapHook()}
 	wo := &WorkerOut{Prop: *prop, Build: buildName(), From: *from, To: *to, Stats: hist.NewStats()}
+	var history []*hist.Trace
 	for i := *from; i < *to; i++ {
-		env.KeepTrace = len(wo.Samples) < *samples
+		env.KeepTrace = true
 		env.Transcript = *transcript
 		res := hist.RunSeed(*prop, *seed, i, wo.Stats, env)
 		wo.Hashes = append(wo.Hashes, res.ValueHash)
 		wo.RawHashes = append(wo.RawHashes, res.RawHash)
 		wo.Nontrivial = append(wo.Nontrivial, res.Evals > 0)
 		wo.Known = append(wo.Known, res.Known...)
+		wo.Done = i + 1
 		if res.Violation != nil {
+			res.Trace.Prelude = history
 			wo.Violations = append(wo.Violations, res)
-		} else if env.KeepTrace {
+			break
+		}
+		history = append(history, &hist.Trace{Kind: "hist", Prop: res.Trace.Prop, NP: res.Trace.NP, NS: res.Trace.NS, NE: res.Trace.NE, Opts: res.Trace.Opts, Calls: res.Trace.Calls, RunIdx: res.Idx})
+		if len(wo.Samples) < *samples || *transcript {
 			wo.Samples = append(wo.Samples, res)
-		} else if *transcript {
-			wo.Samples = append(wo.Samples, res)
+		} else {
+			res.Trace = nil
 		}
 	}
 	b, _ := json.Marshal(wo)
